@@ -292,11 +292,11 @@ Proof. intro H. unfold tw_write_indent_add. apply Ierr_add. apply (tw_wri_inv Ie
 
 Lemma error_sticks sm n next nc st : Ierr st -> Ierr (fst (emit_node sm n next nc st)).
 Proof.
-  apply (emit_node_inv Ierr Ierr_wr Ierr_set_local Ierr_after_var Ierr_reset Ierr_fail
+  apply (emit_node_inv Ierr Ierr_wr Ierr_set_local Ierr_after_var True (fun _ => Ierr_reset) Ierr_fail
            (fun sm t st => Ierr_write_add sm (t_lit t) t st)
            (fun sm t st => Ierr_write_add sm (go_trim_space (t_lit t)) t st)
            (fun sm a st => Ierr_write_add sm (a_value a) (a_origin a) st)
-           (fun sm t st => Ierr_write_indent_add sm (t_lit t) t st)).
+           (fun sm t st => Ierr_write_indent_add sm (t_lit t) t st) sm n (goht_ok_True n)).
 Qed.
 
 Lemma error_sticks_list sm l : forall nc st, Ierr st -> Ierr (emit_list sm l nc st).
